@@ -176,7 +176,9 @@ class FuncGen:
             self.f('builtin_call')
             if r.random() < .25:
                 return '(~%s)' % a()
-            return r.choice(['abs(%s)', 'int(%s)', '(-%s)', 'int(%s)']) % (a() if r.random() < .7 else self.expr('float', d))
+            t = r.choice(['abs(%s)', 'int(%s)', '(-%s)', 'int(%s)'])
+            # only int() gets a float operand: '(-1e10) & 15' is a compile-time error in Cython (C43's subject) and would hide the module
+            return t % (a() if r.random() < .7 or not t.startswith('int') else self.expr('float', d))
         if c == 10:
             self.f('builtin_call')
             if r.random() < 0.3:
